@@ -163,6 +163,101 @@ func runC17(c *core.Ctx) core.Meta {
 		}
 	}
 
+	// R17.10 one internal address per request
+	st10 := c.Rule("R17.10", "every storage access of a request uses the request's internal address: where the component has an address converter (a call of AddressConverter.ConvertExternalToInternal exists in the package), the address argument of every Storage.Read / Storage.Write is the converted address (the value merged from the raw address and the converter's result, directly or through a helper of the package), and all accesses of one function use one and the same address value - the read half of a masked read-modify-write at the raw address merges the new bytes into the wrong line", 3)
+	isConvert := func(v ssa.Value) bool {
+		call, ok := v.(*ssa.Call)
+		return ok && call.Call.IsInvoke() && call.Call.Method.Name() == "ConvertExternalToInternal"
+	}
+	hasConverter := false
+	p.Instrs(func(_ *ssa.Function, in ssa.Instruction) {
+		if v, ok := in.(ssa.Value); ok && isConvert(v) {
+			hasConverter = true
+		}
+	})
+	var fromConvert func(v ssa.Value, d int, seen map[ssa.Value]bool) bool
+	fromConvert = func(v ssa.Value, d int, seen map[ssa.Value]bool) bool {
+		if seen[v] || d > 6 {
+			return false
+		}
+		seen[v] = true
+		if isConvert(v) {
+			return true
+		}
+		switch x := v.(type) {
+		case *ssa.Phi:
+			for _, e := range x.Edges {
+				if fromConvert(e, d+1, seen) {
+					return true
+				}
+			}
+		case *ssa.Call:
+			if cal := x.Call.StaticCallee(); cal != nil && cal.Pkg == p.Pkg {
+				for _, b := range cal.Blocks {
+					for _, in := range b.Instrs {
+						if r, ok := in.(*ssa.Return); ok {
+							for _, res := range r.Results {
+								if fromConvert(res, d+1, seen) {
+									return true
+								}
+							}
+						}
+					}
+				}
+			}
+		case *ssa.UnOp:
+			// a local spilled to memory: follow the stores
+			if al, ok := x.X.(*ssa.Alloc); ok && x.Op == token.MUL && al.Referrers() != nil {
+				for _, r := range *al.Referrers() {
+					if sto, ok := r.(*ssa.Store); ok && sto.Addr == al && fromConvert(sto.Val, d+1, seen) {
+						return true
+					}
+				}
+			}
+		}
+		return false
+	}
+	if hasConverter {
+		for _, fn := range p.Funcs {
+			var first ssa.Value
+			for _, b := range fn.Blocks {
+				for _, in := range b.Instrs {
+					if !isStorageMethod(in, "Read") && !isStorageMethod(in, "Write") {
+						continue
+					}
+					mname := "Write"
+					if isStorageMethod(in, "Read") {
+						mname = "Read"
+					}
+					args := core.CallOf(in).Args
+					addr := args[0]
+					if len(args) == 3 {
+						addr = args[1] // static call: receiver first
+					}
+					st10.Instances++
+					c.MarkAnalysed(fn)
+					okC := fromConvert(addr, 0, map[ssa.Value]bool{})
+					st10.Ob(okC)
+					st10.Sample("%s: %s at the converted address: %v", core.FuncName(fn), mname, okC)
+					if !okC {
+						c.ReportAt("R17.10", fn, in.Pos(), "storage-access:raw-address:"+mname, core.FuncName(fn)+" accesses the storage at "+prov.Of(addr)+", which is not the address the converter produced: with an address converter installed the access goes to a different line than the request's other accesses (a masked write reads the old bytes from the raw address and writes the merge to the converted one)")
+					}
+					if first == nil {
+						first = addr
+					} else {
+						same := first == addr
+						st10.Ob(same)
+						if !same && okC {
+							c.ReportAt("R17.10", fn, in.Pos(), "storage-access:two-addresses", core.FuncName(fn)+" accesses the storage at two different address values for one request")
+						}
+					}
+				}
+			}
+		}
+	} else {
+		c.Report(core.Finding{Rule: "R17.10", Kind: "anchor", Pkg: sbmPkg, Func: "-", Detail: "converter", Msg: "no call of AddressConverter.ConvertExternalToInternal found in the package"})
+	}
+
 	// R17.3 conservation
 	st3 := c.Rule("R17.3", "in the dispatch loop every pending request reaches exactly one of {pipeline.Accept, delay-queue append, remaining append} per iteration; every retrieved message is appended to the pending list", 2)
 	isSink := func(n *core.Node) (string, bool) {
